@@ -30,11 +30,13 @@ PROPS_FILE = "Props/C03.v"
 MODEL_TARGETS = ["Corr/C03_Eval.v"]
 ALLOWED_AXIOMS = []
 RULE = ("scripts over {send,recv,close,select(send/recv/default cases, nil channel cases),range,go,Gosched,Goexit,print}; "
-        "exhaustive: main=[go 1]+<=2 ops x goroutine 1 <=2 ops over a 10-op alphabet (13 in the thorough tier) on one channel x caps {0,1,2} x pick oracle "
-        "{all-first, all-last} x slice oracle {never, always}; main+2 goroutines x 1 op each; random: 2-4 goroutines (nested go), "
-        "1-3 channels caps 0..2 + nil, 2-6 ops each, random pick/slice oracles; all sent values distinct. "
+        "exhaustive domains, fixed-seed samples of them per run (quick 3.5k+3.5k, thorough 40k+40k): ex2 = main=[go 1]+<=2 ops x goroutine 1 <=2 ops; "
+        "ex3 = main=[go 1, go 2, optional Gosched so that both goroutines park first]+<=1 op (thorough <=2) x two goroutines x 1 op; over a 10-op "
+        "(thorough 13-op) alphabet on one channel x caps {0,1,2} x pick oracle {all-first, all-last} x slice oracle {never, always, alternating}; "
+        "random: 2-5 goroutines (nested go), 1-3 channels caps 0..3 + nil, 1-8 ops each, random pick/slice oracles; all sent values distinct. "
         "non-trivial = at least two goroutines communicate or block; distinct by (caps, scripts, oracles). "
-        "programs: random scripts and Kahn-style (single producer/consumer per channel) deterministic programs")
+        "programs: random scripts and Kahn-style (single producer/consumer per channel) deterministic programs, channel element type "
+        "int / struct / array (senders overwrite the sent variable right after the send)")
 TRUSTED = ["model of goroutines.js/types.js written by hand (coq/Model/C03_Chan.v), tied by this correspondence",
            "harness/js/c03_driver.js: interpreter of scripts in the compiled calling convention; FIFO timer queue standing for node's "
            "same-delay timer order; runtime.Gosched/Goexit re-written by hand from natives/src/runtime/runtime.go (the compiled-program "
@@ -728,9 +730,15 @@ def correspond(ctx):
             ex2 = [c for c in ex if c["fam"] == "ex2"]
             ex3 = [c for c in ex if c["fam"] == "ex3"]
             ex = r0.sample(ex2, min(len(ex2), 3500)) + r0.sample(ex3, min(len(ex3), 3500))
+        else:
+            # thorough: the 13-op alphabet domains have ~0.5 M members; explore a fixed-seed sample of 80 k
+            r0 = ctx.rng("sample")
+            ex2 = [c for c in ex if c["fam"] == "ex2"]
+            ex3 = [c for c in ex if c["fam"] == "ex3"]
+            ex = r0.sample(ex2, min(len(ex2), 40000)) + r0.sample(ex3, min(len(ex3), 40000))
         check_cases(ctx, ex, variant, "ex", pool)
         r = ctx.rng("random")
-        n = 1500 if ctx.quick else 60000
+        n = 1500 if ctx.quick else 20000
         rnd = [gen_random_case(r, big=(i % 5 == 0)) for i in range(n)]
         res = check_cases(ctx, rnd, variant, "rnd", pool)
         for c, x in list(zip(rnd, res))[:3]:
